@@ -22,7 +22,7 @@ use dusk_plonk::verif::Snapshot;
 use serde_json::json;
 
 use super::common::{self, Fail};
-use crate::gen::program::{Inputs, Program, Reg, Regs};
+use crate::gen::program::{Inputs, Op, Program, Reg, Regs};
 use crate::mon::evidence::Ev;
 use crate::mon::panic::panic_site;
 use crate::mon::rng::case_rng;
@@ -140,7 +140,13 @@ impl Lab<'_> {
         let ev = self.ev;
         let comp = c.component.split(['<', '(']).next().unwrap().to_string();
         // only the component's own witnesses may be forged
-        debug_assert!(forge.keys().all(|k| h.own.contains(k)), "forge outside component: {:?} vs {:?}", forge.keys().collect::<Vec<_>>(), h.own);
+        // (a component that allocated fewer witnesses than its adversaries
+        // assume - e.g. because the tree under test changed its layout - is
+        // not attacked with a forge that would hit somebody else's witnesses)
+        if !forge.keys().all(|k| h.own.contains(k)) {
+            ev.bucket("adversarial.skipped-forge-outside-component");
+            return;
+        }
         let differs = forge.iter().any(|(k, v)| h.snap.witnesses[*k] != *v);
         let built = build_forged(&c.prog, &c.inputs, Some(forge));
         ev.case_fp(&format!("{}|{}|{}|{:?}", c.component, name, c.note, forge.iter().map(|(k, v)| (k, hx(v))).collect::<Vec<_>>()), differs);
@@ -300,4 +306,150 @@ pub fn substitutions(h: &Honest, rng: &mut impl rand_core::RngCore, per_witness:
         }
     }
     out
+}
+
+// ---------------------------------------------------------------------------
+// Context: the component under test preceded by other calls on its operands.
+//
+// A component's rows, returned values and exactness must not depend on what
+// the composer was asked before (a cache keyed on too little, a "this witness
+// was already range-checked" shortcut, a memoised sub-result). `in_context`
+// rewrites a case so that the op under test comes right after a prelude of
+// always-satisfiable calls on the same operands - siblings with another
+// width, the other logic operation, range checks the operand passes,
+// truncations, duplicates; the relation and the expected values of the case
+// are unchanged, and every adversary of the check then runs in that context.
+// ---------------------------------------------------------------------------
+
+fn bitlen(v: &BlsScalar) -> usize {
+    let u = crate::refimpl::bigint::U320::from_scalar(v);
+    (0..256).rev().find(|i| u.bit(*i) == 1).map(|i| i + 1).unwrap_or(0)
+}
+
+/// Candidate preludes for the op under test; all are satisfiable for the
+/// operand values of this case.
+fn preludes(c: &Case, snap: &Snapshot, regs: &Regs, rng: &mut impl rand_core::RngCore, points_are_subgroup: bool) -> Vec<(String, Vec<Op>)> {
+    let op = &c.prog.ops[c.op];
+    let (sregs, pregs) = op.operands();
+    let mut out: Vec<(String, Vec<Op>)> = Vec::new();
+    let val = |r: Reg| snap.witnesses[regs.s[r].index()];
+    for &r in sregs.iter().take(2) {
+        let bl = bitlen(&val(r));
+        for w in [252usize, 254, 255, 256, bl, bl + 1, ((bl + 1) / 2) * 2] {
+            if w >= bl && w <= 256 {
+                out.push((format!("range_bits<{w}>(operand)"), vec![Op::RangeBits(w, r)]));
+            }
+        }
+        for n in [1usize, 8, 64, 200, 254] {
+            out.push((format!("truncate<{n}>(operand)"), vec![Op::Truncate(n, r)]));
+        }
+        out.push(("xor<8>(operand,operand)".into(), vec![Op::LogicXor(8, r, r)]));
+        if bl <= 200 {
+            out.push(("decomposition<200>(operand)".into(), vec![Op::Decomposition(200, r)]));
+        }
+    }
+    match op {
+        Op::LogicAnd(p, a, b) | Op::LogicXor(p, a, b) => {
+            let is_xor = matches!(op, Op::LogicXor(..));
+            for q in [0usize, 1, p.saturating_sub(1), p + 1, 2 * p, 64, 127] {
+                if q != *p && q <= 127 {
+                    out.push((format!("same-operation<{q}>"), vec![if is_xor { Op::LogicXor(q, *a, *b) } else { Op::LogicAnd(q, *a, *b) }]));
+                    out.push((format!("same-operation<{q}>-swapped"), vec![if is_xor { Op::LogicXor(q, *b, *a) } else { Op::LogicAnd(q, *b, *a) }]));
+                }
+            }
+            out.push(("other-operation-same-width".into(), vec![if is_xor { Op::LogicAnd(*p, *a, *b) } else { Op::LogicXor(*p, *a, *b) }]));
+        }
+        Op::Truncate(n, a) => {
+            for q in [0usize, 1, n.saturating_sub(1), n + 1, 254] {
+                if q != *n && q <= 254 {
+                    out.push((format!("truncate<{q}>"), vec![Op::Truncate(q, *a)]));
+                }
+            }
+        }
+        Op::Decomposition(n, a) => {
+            let bl = bitlen(&val(*a));
+            for q in [bl.max(1), n + 1, 255, 256] {
+                if q != *n && q >= bl && (1..=256).contains(&q) {
+                    out.push((format!("decomposition<{q}>"), vec![Op::Decomposition(q, *a)]));
+                }
+            }
+        }
+        Op::MulGenerator(s, _) | Op::SeamFixedBase(s, _, _) | Op::SeamCanonicalJubjub(s) => {
+            let bl = bitlen(&val(*s));
+            for w in [251usize, 252, 253] {
+                if w >= bl {
+                    out.push((format!("range_bits<{w}>(scalar)"), vec![Op::RangeBits(w, *s)]));
+                    out.push((format!("range_seam<{w}>(scalar)"), vec![Op::RangeSeam(w, *s)]));
+                }
+            }
+            if bl <= 252 {
+                out.push(("decomposition<252>(scalar)".into(), vec![Op::Decomposition(252, *s)]));
+            }
+        }
+        _ => {}
+    }
+    if points_are_subgroup {
+        if let Some(&a) = pregs.first() {
+            let b = *pregs.get(1).unwrap_or(&a);
+            out.push(("add_point(operands)".into(), vec![Op::AddPoint(a, b)]));
+            out.push(("add_point(swapped)".into(), vec![Op::AddPoint(b, a)]));
+            out.push(("sub_point(operands)".into(), vec![Op::SubPoint(a, b)]));
+            out.push(("neg_point(operand)".into(), vec![Op::NegPoint(a)]));
+            out.push(("select_identity(ONE,operand)".into(), vec![Op::SelectIdentity(1, a)]));
+            out.push(("select_point(ZERO,operands)".into(), vec![Op::SelectPoint(0, a, b)]));
+            out.push(("assert_torsion_free(operand)".into(), vec![Op::AssertTorsionFree(a)]));
+        }
+    }
+    // an exact duplicate of the call (satisfiable whenever the case itself is)
+    if c.relation {
+        out.push(("duplicate-call".into(), vec![op.clone()]));
+    }
+    let _ = rng;
+    out
+}
+
+/// The case with a prelude inserted right before the op under test, or the
+/// case unchanged when no prelude applies / the rewritten program does not
+/// build. `points_are_subgroup` allows curve preludes on the point operands.
+pub fn in_context(c: Case, rng: &mut impl rand_core::RngCore, points_are_subgroup: bool, ev: &Ev) -> Case {
+    let Ok((snap, regs)) = build_forged(&c.prog, &c.inputs, None) else { return c };
+    let cands = preludes(&c, &snap, &regs, rng, points_are_subgroup);
+    if cands.is_empty() {
+        return c;
+    }
+    let (pname, prelude) = cands[rng.next_u32() as usize % cands.len()].clone();
+    let (s_before, p_before) = (regs.marks[c.op].0, regs.marks[c.op].1);
+    // trial run of [..op] ++ prelude to learn how many registers it pushes
+    let mut ops: Vec<Op> = c.prog.ops[..c.op].to_vec();
+    ops.extend(prelude.iter().cloned());
+    let trial = Arc::new(Program { ops: ops.clone(), n_scalar_inputs: c.prog.n_scalar_inputs, n_point_inputs: c.prog.n_point_inputs, n_digit_inputs: c.prog.n_digit_inputs });
+    let Ok((_, tregs)) = build_forged(&trial, &c.inputs, None) else {
+        ev.bucket("context.prelude-refused");
+        return c;
+    };
+    let (ds, dp) = (tregs.s.len() - s_before, tregs.p.len() - p_before);
+    let fs = move |r: Reg| if r >= s_before { r + ds } else { r };
+    let fp = move |r: usize| if r >= p_before { r + dp } else { r };
+    ops.push(c.prog.ops[c.op].clone());
+    for o in &c.prog.ops[c.op + 1..] {
+        ops.push(o.map_regs(&fs, &fp));
+    }
+    let prog = Arc::new(Program { ops, n_scalar_inputs: c.prog.n_scalar_inputs, n_point_inputs: c.prog.n_point_inputs, n_digit_inputs: c.prog.n_digit_inputs });
+    // the default instance must build too (it is what gets compiled)
+    if common::build_instance(&prog, &Inputs::default_for(&prog), &[]).is_err() {
+        ev.bucket("context.default-instance-refused");
+        return c;
+    }
+    ev.bucket("context.cases");
+    ev.set_insert("context_preludes", pname.split(['<', '(']).next().unwrap_or(""));
+    Case {
+        component: c.component,
+        prog,
+        inputs: c.inputs,
+        op: c.op + prelude.len(),
+        returned: c.returned.iter().map(|r| fs(*r)).collect(),
+        relation: c.relation,
+        expected: c.expected,
+        note: format!("{} ctx={pname}", c.note),
+    }
 }
